@@ -176,22 +176,7 @@ func c06Create(c *Ctx, validatorForm string) {
 				if !ok {
 					continue // stores into the field
 				}
-				for _, use := range *ld.Referrers() {
-					switch u := use.(type) {
-					case *ssa.Call:
-						n := core.CalleeName(u.Common())
-						switch {
-						case n == "crypto/hmac.New" && len(u.Call.Args) == 2 && u.Call.Args[1] == ld:
-						case n == "builtin:len":
-						case u.Common().IsInvoke() && u.Common().Method.Name() == "Read":
-						default:
-							bad = append(bad, p.Pos(u.Pos())+" HmacKeyBytes passed to "+shortName(n))
-						}
-					case *ssa.DebugRef:
-					default:
-						bad = append(bad, p.Pos(use.Pos())+" HmacKeyBytes used by "+fmt.Sprintf("%T", use))
-					}
-				}
+				bad = append(bad, hmacKeyUses(p, ld, 0)...)
 			}
 		case *ssa.MakeInterface:
 			for _, use := range *x.Referrers() {
@@ -439,6 +424,46 @@ func nonceUses(p *core.Prog, obj ssa.Value, depth int) []string {
 			}
 		default:
 			bad = append(bad, p.Pos(ref.Pos())+" token nonce object used by "+fmt.Sprintf("%T", ref)+" in helper")
+		}
+	}
+	return bad
+}
+
+
+// hmacKeyUses lists uses of the HMAC key bytes v other than: key of hmac.New,
+// len, target of a random Read - following the value into unexported helpers
+// it is handed to (their parameter must be used the same way).
+func hmacKeyUses(p *core.Prog, v ssa.Value, depth int) []string {
+	var bad []string
+	if v.Referrers() == nil {
+		return nil
+	}
+	for _, use := range *v.Referrers() {
+		switch u := use.(type) {
+		case *ssa.Call:
+			n := core.CalleeName(u.Common())
+			switch {
+			case n == "crypto/hmac.New" && len(u.Call.Args) == 2 && u.Call.Args[1] == v:
+			case n == "builtin:len":
+			case u.Common().IsInvoke() && u.Common().Method.Name() == "Read":
+			default:
+				if h := core.ModuleCallee(u.Common()); h != nil && depth < core.MaxSummaryDepth {
+					followed := false
+					for i, a := range u.Common().Args {
+						if a == v && i < len(h.Params) {
+							followed = true
+							bad = append(bad, hmacKeyUses(p, h.Params[i], depth+1)...)
+						}
+					}
+					if followed {
+						continue
+					}
+				}
+				bad = append(bad, p.Pos(u.Pos())+" HmacKeyBytes passed to "+shortName(n))
+			}
+		case *ssa.DebugRef:
+		default:
+			bad = append(bad, p.Pos(use.Pos())+" HmacKeyBytes used by "+fmt.Sprintf("%T", use))
 		}
 	}
 	return bad
